@@ -84,8 +84,12 @@ func (cs ChainStorage) FindConversionChain(crdName string, rule Rule) []Rule {
 					continue
 				}
 
-				//nolint
-				newPath := append(chain.PathsCache[ruleToCheck], nextRule)
+				// Copy the cached path: cached paths may share spare capacity,
+				// appending in place would overwrite another path.
+				basePath := chain.PathsCache[ruleToCheck]
+				newPath := make([]Rule, 0, len(basePath)+1)
+				newPath = append(newPath, basePath...)
+				newPath = append(newPath, nextRule)
 
 				// This path is already discovered.
 				p := chain.SearchPathForRule(newRule)
